@@ -6,5 +6,7 @@ func init() {
 		"a delta reader of an asynchronous sum is compared per reported (post-filter, post-limit) stream with: this cycle's aggregate minus what the preceding collection reported for that stream",
 		"result streams that share name, unit, kind and number type but are defined with different aggregations or filters (conflicting duplicates), and distinct streams indistinguishable in the output, are not generated and not asserted",
 		"histograms of instruments that may record negative values carry no sum (documented); only their count is compared",
+		"a view asking for AggregationDefault{} gets DefaultAggregationSelector(kind), never the reader's aggregation selector; a Drop chosen by a reader's selector removes the stream for that reader only",
+		"limit_concurrent: measurements racing for the last identity slots may be admitted in any order (which racing set keeps its identity is not asserted); a set first measured strictly before another one (program order / after a join) must not lose against it; not run under -race (the sequential sub-checks would exceed the quick budget about 4x)",
 	))
 }
